@@ -244,4 +244,786 @@ theorem cframe_replyBans (s : Srv) (c : Str) : CFrame s (s.replyBans c).1 := by
     · exact hk
   · exact cframe_same rfl rfl rfl (fun _ h => h) (fun _ h => h) (fun _ h => h) (fun _ _ h _ => h)
 
+theorem complete_isupport {s : Srv} (hc : Complete s) : Complete (s.step .isupport).1 := hc
+
+theorem complete_who {s : Srv} (hw : SrvWF s) (hc : Complete s) (c : Str) : Complete (s.step (.who c)).1 :=
+  complete_of_frame hc hw.chansNodup (wf_replyWho hw c).chansNodup (cframe_replyWho s c)
+
+theorem complete_modeis {s : Srv} (hw : SrvWF s) (hc : Complete s) (c : Str) : Complete (s.step (.modeis c)).1 :=
+  complete_of_frame hc hw.chansNodup (wf_replyMode hw c).chansNodup (cframe_replyMode s c)
+
+theorem complete_banlist {s : Srv} (hw : SrvWF s) (hc : Complete s) (c : Str) : Complete (s.step (.banlist c)).1 :=
+  complete_of_frame hc hw.chansNodup (wf_replyBans hw c).chansNodup (cframe_replyBans s c)
+
+/-! ### `serve`: the oldest query is answered and leaves the queue -/
+
+theorem pop_who {s : Srv} {c : Str} {rest : List Req} (hc : CompleteP s (.who c :: rest))
+    (ha : ∀ sc, aget s.chans (lower c) = some sc → ∀ x, sc.has x = true → x ∈ s.told) : CompleteP s rest := by
+  refine ⟨?_, ?_, ?_⟩
+  · intro k sc h1 h2
+    refine (hc.modes k sc h1 h2).imp id ?_
+    rintro ⟨c', hk, hm⟩
+    simp only [List.mem_cons, reduceCtorEq, false_or] at hm
+    exact ⟨c', hk, hm⟩
+  · intro k sc h1 h2
+    refine (hc.bans k sc h1 h2).imp id ?_
+    rintro ⟨c', hk, hm⟩
+    simp only [List.mem_cons, reduceCtorEq, false_or] at hm
+    exact ⟨c', hk, hm⟩
+  · intro hcg x hv
+    by_cases hxt : x ∈ s.told
+    · exact Or.inl hxt
+    · rcases hc.hosts hcg x hv with h | h
+      · exact Or.inl h
+      · right
+        intro kc sc h1 h2 h3
+        obtain ⟨c', hk, hm⟩ := h kc sc h1 h2 h3
+        simp only [List.mem_cons, Req.who.injEq] at hm
+        rcases hm with rfl | hm
+        · subst hk; exact absurd (ha sc h1 x h3) hxt
+        · exact ⟨c', hk, hm⟩
+
+theorem pop_mode {s : Srv} {c : Str} {rest : List Req} (hc : CompleteP s (.mode c :: rest))
+    (ha : ∀ sc, aget s.chans (lower c) = some sc → sc.has s.botKey = true → lower c ∈ s.modesSynced) : CompleteP s rest := by
+  refine ⟨?_, ?_, ?_⟩
+  · intro k sc h1 h2
+    rcases hc.modes k sc h1 h2 with h | ⟨c', hk, hm⟩
+    · exact Or.inl h
+    · simp only [List.mem_cons, Req.mode.injEq] at hm
+      rcases hm with rfl | hm
+      · subst hk; exact Or.inl (ha sc h1 h2)
+      · exact Or.inr ⟨c', hk, hm⟩
+  · intro k sc h1 h2
+    refine (hc.bans k sc h1 h2).imp id ?_
+    rintro ⟨c', hk, hm⟩
+    simp only [List.mem_cons, reduceCtorEq, false_or] at hm
+    exact ⟨c', hk, hm⟩
+  · intro hcg x hv
+    refine (hc.hosts hcg x hv).imp id ?_
+    intro h kc sc h1 h2 h3
+    obtain ⟨c', hk, hm⟩ := h kc sc h1 h2 h3
+    simp only [List.mem_cons, reduceCtorEq, false_or] at hm
+    exact ⟨c', hk, hm⟩
+
+theorem pop_bans {s : Srv} {c : Str} {rest : List Req} (hc : CompleteP s (.bans c :: rest))
+    (ha : ∀ sc, aget s.chans (lower c) = some sc → sc.has s.botKey = true → lower c ∈ s.bansSynced) : CompleteP s rest := by
+  refine ⟨?_, ?_, ?_⟩
+  · intro k sc h1 h2
+    refine (hc.modes k sc h1 h2).imp id ?_
+    rintro ⟨c', hk, hm⟩
+    simp only [List.mem_cons, reduceCtorEq, false_or] at hm
+    exact ⟨c', hk, hm⟩
+  · intro k sc h1 h2
+    rcases hc.bans k sc h1 h2 with h | ⟨c', hk, hm⟩
+    · exact Or.inl h
+    · simp only [List.mem_cons, Req.bans.injEq] at hm
+      rcases hm with rfl | hm
+      · subst hk; exact Or.inl (ha sc h1 h2)
+      · exact Or.inr ⟨c', hk, hm⟩
+  · intro hcg x hv
+    refine (hc.hosts hcg x hv).imp id ?_
+    intro h kc sc h1 h2 h3
+    obtain ⟨c', hk, hm⟩ := h kc sc h1 h2 h3
+    simp only [List.mem_cons, reduceCtorEq, false_or] at hm
+    exact ⟨c', hk, hm⟩
+
+theorem complete_serve {s : Srv} (hw : SrvWF s) (hc : Complete s) : Complete (s.step .serve).1 := by
+  simp only [Srv.step]
+  split
+  · exact hc
+  · rename_i c rest hp
+    have hc0 : CompleteP ({ s with pending := rest } : Srv) (.who c :: rest) := by
+      have h : CompleteP s (.who c :: rest) := by rw [← hp]; exact hc
+      exact ⟨h.modes, h.bans, h.hosts⟩
+    have hw0 : SrvWF ({ s with pending := rest } : Srv) := wf_congr hw rfl rfl rfl rfl
+    have h1 := completeP_of_frame hc0 hw0.chansNodup (wf_replyWho hw0 c).chansNodup (cframe_replyWho _ c).toCFrame0
+    have h2 : CompleteP (({ s with pending := rest } : Srv).replyWho c).1 rest := by
+      refine pop_who h1 ?_
+      intro sc hsc x hx
+      unfold Srv.replyWho at hsc ⊢
+      have hch : ({ s with pending := rest } : Srv).chan c = aget s.chans (lower c) := rfl
+      cases hg : aget s.chans (lower c) with
+      | none => rw [hch, hg] at hsc; simp only [] at hsc; rw [hg] at hsc; cases hsc
+      | some sc0 =>
+        rw [hch, hg] at hsc ⊢
+        simp only [] at hsc ⊢
+        rw [hg] at hsc; cases hsc
+        exact mem_addAll.mpr (Or.inr (mem_keys.mpr (has_iff.mp hx)))
+    have hpe : (({ s with pending := rest } : Srv).replyWho c).1.pending = rest := by
+      unfold Srv.replyWho; split <;> rfl
+    show CompleteP _ _
+    rw [hpe]; exact h2
+  · rename_i c rest hp
+    have hc0 : CompleteP ({ s with pending := rest } : Srv) (.mode c :: rest) := by
+      have h : CompleteP s (.mode c :: rest) := by rw [← hp]; exact hc
+      exact ⟨h.modes, h.bans, h.hosts⟩
+    have hw0 : SrvWF ({ s with pending := rest } : Srv) := wf_congr hw rfl rfl rfl rfl
+    have h1 := completeP_of_frame hc0 hw0.chansNodup (wf_replyMode hw0 c).chansNodup (cframe_replyMode _ c).toCFrame0
+    have h2 : CompleteP (({ s with pending := rest } : Srv).replyMode c).1 rest := by
+      refine pop_mode h1 ?_
+      intro sc hsc hb
+      unfold Srv.replyMode at hsc hb ⊢
+      have hch : ({ s with pending := rest } : Srv).chan c = aget s.chans (lower c) := rfl
+      cases hg : aget s.chans (lower c) with
+      | none => rw [hch, hg] at hsc; simp only [] at hsc; rw [hg] at hsc; cases hsc
+      | some sc0 =>
+        rw [hch, hg] at hsc hb ⊢
+        simp only [] at hsc hb ⊢
+        rw [hg] at hsc; cases hsc
+        have hb' : ({ s with pending := rest } : Srv).botIn sc = true := hb
+        rw [hb']; exact mem_sadd.mpr (Or.inl rfl)
+    have hpe : (({ s with pending := rest } : Srv).replyMode c).1.pending = rest := by
+      unfold Srv.replyMode; split <;> rfl
+    show CompleteP _ _
+    rw [hpe]; exact h2
+  · rename_i c rest hp
+    have hc0 : CompleteP ({ s with pending := rest } : Srv) (.bans c :: rest) := by
+      have h : CompleteP s (.bans c :: rest) := by rw [← hp]; exact hc
+      exact ⟨h.modes, h.bans, h.hosts⟩
+    have hw0 : SrvWF ({ s with pending := rest } : Srv) := wf_congr hw rfl rfl rfl rfl
+    have h1 := completeP_of_frame hc0 hw0.chansNodup (wf_replyBans hw0 c).chansNodup (cframe_replyBans _ c).toCFrame0
+    have h2 : CompleteP (({ s with pending := rest } : Srv).replyBans c).1 rest := by
+      refine pop_bans h1 ?_
+      intro sc hsc hb
+      unfold Srv.replyBans at hsc hb ⊢
+      have hch : ({ s with pending := rest } : Srv).chan c = aget s.chans (lower c) := rfl
+      cases hg : aget s.chans (lower c) with
+      | none => rw [hch, hg] at hsc; simp only [] at hsc; rw [hg] at hsc; cases hsc
+      | some sc0 =>
+        rw [hch, hg] at hsc hb ⊢
+        simp only [] at hsc hb ⊢
+        rw [hg] at hsc; cases hsc
+        have hb' : ({ s with pending := rest } : Srv).botIn sc = true := hb
+        rw [hb']; exact mem_sadd.mpr (Or.inl rfl)
+    have hpe : (({ s with pending := rest } : Srv).replyBans c).1.pending = rest := by
+      unfold Srv.replyBans; split <;> rfl
+    show CompleteP _ _
+    rw [hpe]; exact h2
+
+/-! ### PART, KICK, QUIT: channels only lose members -/
+
+/-- every channel of `s'` is a channel of `s` with (some of) the same members -/
+def Shrinks (c c' : List (Str × SChan)) : Prop :=
+  ∀ k sc', aget c' k = some sc' → ∃ sc, aget c k = some sc ∧ ∀ x, sc'.has x = true → sc.has x = true
+
+theorem Shrinks.refl (c : List (Str × SChan)) : Shrinks c c := fun _ sc' h => ⟨sc', h, fun _ hx => hx⟩
+
+theorem Shrinks.trans {a b c : List (Str × SChan)} (h1 : Shrinks a b) (h2 : Shrinks b c) : Shrinks a c := by
+  intro k sc'' h
+  obtain ⟨sc', hsc', hm'⟩ := h2 k sc'' h
+  obtain ⟨sc, hsc, hm⟩ := h1 k sc' hsc'
+  exact ⟨sc, hsc, fun x hx => hm x (hm' x hx)⟩
+
+theorem putChan_shrinks {s : Srv} {k : Str} {sc sc1 : SChan} (h0 : aget s.chans k = some sc)
+    (hm : ∀ x, sc1.has x = true → sc.has x = true) : Shrinks s.chans (s.putChan k sc1).chans := by
+  intro k' sc' h
+  unfold Srv.putChan at h
+  split at h
+  · have h' : aget (adel s.chans k) k' = some sc' := h
+    rw [aget_adel] at h'
+    split at h'
+    · cases h'
+    · exact ⟨sc', h', fun _ hx => hx⟩
+  · have h' : aget (aset s.chans k sc1) k' = some sc' := h
+    rw [aget_aset] at h'
+    split at h'
+    · rename_i hk; subst hk; cases h'; exact ⟨sc, h0, hm⟩
+    · exact ⟨sc', h', fun _ hx => hx⟩
+
+theorem cframe_shrink {s s' : Srv} (hcfg : s'.cfg = s.cfg) (hbot : s'.bot = s.bot) (hsh : Shrinks s.chans s'.chans)
+    (hms : s'.modesSynced = s.modesSynced) (hbs : s'.bansSynced = s.bansSynced) (hp : s'.pending = s.pending)
+    (ht : ∀ x, x ∈ s.told → s'.visible x = true → x ∈ s'.told) : CFrame s s' where
+  cfg := hcfg
+  bot := hbot
+  chans := fun k sc' hsc' hb => by
+    obtain ⟨sc, hsc, hm⟩ := hsh k sc' hsc'
+    exact ⟨sc, hsc, hm _ hb, fun x hx => Or.inl (hm x hx)⟩
+  ms := fun _ h => by rw [hms]; exact h
+  bs := fun _ h => by rw [hbs]; exact h
+  pend := fun _ h => by rw [hp]; exact h
+  told := fun _ => ht
+
+theorem putChan_fields (s : Srv) (k : Str) (sc : SChan) :
+    (s.putChan k sc).cfg = s.cfg ∧ (s.putChan k sc).bot = s.bot ∧ (s.putChan k sc).modesSynced = s.modesSynced ∧
+    (s.putChan k sc).bansSynced = s.bansSynced ∧ (s.putChan k sc).pending = s.pending ∧ (s.putChan k sc).told = s.told := by
+  unfold Srv.putChan; split <;> exact ⟨rfl, rfl, rfl, rfl, rfl, rfl⟩
+
+theorem leave_frame (k : Str) (cs : List Str) : ∀ s : Srv,
+    (s.leave k cs).1.cfg = s.cfg ∧ (s.leave k cs).1.bot = s.bot ∧ (s.leave k cs).1.modesSynced = s.modesSynced ∧
+    (s.leave k cs).1.bansSynced = s.bansSynced ∧ (s.leave k cs).1.pending = s.pending ∧ (s.leave k cs).1.told = s.told ∧
+    Shrinks s.chans (s.leave k cs).1.chans := by
+  induction cs with
+  | nil => intro s; exact ⟨rfl, rfl, rfl, rfl, rfl, rfl, Shrinks.refl _⟩
+  | cons c cs ih =>
+    intro s
+    unfold Srv.leave
+    split
+    · exact ih s
+    · rename_i sc hch
+      rw [Srv.chan_eq] at hch
+      split
+      · simp only []
+        obtain ⟨a1, a2, a3, a4, a5, a6, a7⟩ := ih (s.putChan (lower c) (sc.remove k))
+        obtain ⟨b1, b2, b3, b4, b5, b6⟩ := putChan_fields s (lower c) (sc.remove k)
+        exact ⟨a1.trans b1, a2.trans b2, a3.trans b3, a4.trans b4, a5.trans b5, a6.trans b6,
+          (putChan_shrinks hch (fun x hx => has_remove_of hx)).trans a7⟩
+      · exact ih s
+
+theorem complete_part {s : Srv} (hw : SrvWF s) (hc : Complete s) (n : Str) (cs : List Str) (r : Option Str) :
+    Complete (s.step (.part n cs r)).1 := by
+  have hw' := wf_part hw n cs r
+  apply complete_of_frame hc hw.chansNodup hw'.chansNodup
+  simp only [Srv.step]
+  split
+  · exact cframe_shrink rfl rfl (Shrinks.refl _) rfl rfl rfl (fun _ h _ => h)
+  · split
+    · exact cframe_shrink rfl rfl (Shrinks.refl _) rfl rfl rfl (fun _ h _ => h)
+    · obtain ⟨a1, a2, a3, a4, a5, a6, a7⟩ := leave_frame (lower n) cs s
+      exact cframe_shrink a1 a2 a7 a3 a4 a5 (fun x hx _ => by rw [a6]; exact hx)
+
+theorem complete_kick {s : Srv} (hw : SrvWF s) (hc : Complete s) (src c : Str) (ts : List Str) (r : Str) :
+    Complete (s.step (.kick src c ts r)).1 := by
+  have hw' := wf_kick hw src c ts r
+  apply complete_of_frame hc hw.chansNodup hw'.chansNodup
+  simp only [Srv.step]
+  split
+  · rename_i pfx sc hsrc hch
+    rw [Srv.chan_eq] at hch
+    split
+    · exact cframe_shrink rfl rfl (Shrinks.refl _) rfl rfl rfl (fun _ h _ => h)
+    · split
+      · exact cframe_shrink rfl rfl (Shrinks.refl _) rfl rfl rfl (fun _ h _ => h)
+      · obtain ⟨b1, b2, b3, b4, b5, b6⟩ := putChan_fields s (lower c) (kickTargets sc ts).1
+        exact cframe_shrink b1 b2 (putChan_shrinks hch (fun x hx => kickTargets_has hx)) b3 b4 b5
+          (fun x hx _ => by rw [b6]; exact hx)
+  · exact cframe_shrink rfl rfl (Shrinks.refl _) rfl rfl rfl (fun _ h _ => h)
+
+theorem complete_quit {s : Srv} (hw : SrvWF s) (hc : Complete s) (n r : Str) : Complete (s.step (.quit n r)).1 := by
+  have hw' := wf_quit hw n r
+  apply complete_of_frame hc hw.chansNodup hw'.chansNodup
+  simp only [Srv.step]
+  split
+  · exact cframe_shrink rfl rfl (Shrinks.refl _) rfl rfl rfl (fun _ h _ => h)
+  · split
+    · exact cframe_shrink rfl rfl (Shrinks.refl _) rfl rfl rfl (fun _ h _ => h)
+    · have hn' : (akeys (s.dropEverywhere (lower n)).chans).Nodup := nodup_dropEverywhere hw.chansNodup _
+      refine cframe_shrink rfl rfl ?_ rfl rfl rfl ?_
+      · intro k sc' hsc'
+        obtain ⟨sc, hsc, rfl⟩ := dropEverywhere_chan hw.chansNodup hsc'
+        exact ⟨sc, hsc, fun x hx => has_remove_of hx⟩
+      · intro x hx hv
+        show x ∈ sdel s.told (lower n)
+        refine mem_sdel.mpr ⟨?_, hx⟩
+        rintro rfl
+        have hv' : (s.dropEverywhere (lower n)).visible (lower n) = true := hv
+        obtain ⟨kc, sc', hsc', _, hx'⟩ := (visible_iff hn').mp hv'
+        obtain ⟨sc, _, rfl⟩ := dropEverywhere_chan hw.chansNodup hsc'
+        rw [has_remove_self] at hx'; cases hx'
+
+/-! ### NICK: the keys change, nothing else -/
+
+theorem complete_nick {s : Srv} (hw : SrvWF s) (hc0 : Complete s) (n n' : Str) : Complete (s.step (.nick n n')).1 := by
+  simp only [Srv.step]
+  split
+  · exact hc0
+  · rename_i u hu
+    rw [Srv.user_eq] at hu
+    split
+    · exact hc0
+    · rename_i hcond
+      simp only [Bool.or_eq_true, Bool.not_eq_eq_eq_not, Bool.not_true, decide_eq_true_eq, Bool.and_eq_true,
+        bne_iff_ne, ne_eq, not_or, Bool.not_eq_false, not_and, Bool.not_eq_true, Option.isSome_eq_false_iff,
+        Option.isNone_iff_eq_none] at hcond
+      obtain ⟨⟨hvn, hne⟩, hfree⟩ := hcond
+      rw [Srv.user_eq] at hfree
+      have hkey := (hw.userOK hu).1
+      have huo := hw.uok hu
+      have hno := nickOK_of_valid hvn
+      obtain ⟨ub, hub, hubn⟩ := hw.bot
+      have hub' : aget s.users s.botKey = some ub := hub
+      -- the new state
+      generalize hs' : ({ s with users := aset (adel s.users (lower n)) (lower n') { u with nick := n' }, chans := s.chans.map (fun p => (p.1, { p.2 with members := renameKey p.2.members (lower n) (lower n') })), bot := if lower n = s.botKey then n' else s.bot, told := if (decide (lower n = s.botKey) || s.visible (lower n)) = true then sadd (sdel s.told (lower n)) (lower n') else sdel (sdel s.told (lower n)) (lower n') } : Srv) = s'
+      have hchans' : ∀ kc, aget s'.chans kc = (aget s.chans kc).map
+          (fun sc => { sc with members := renameKey sc.members (lower n) (lower n') }) := by
+        intro kc; subst hs'
+        exact aget_mapVal s.chans (fun _ sc => { sc with members := renameKey sc.members (lower n) (lower n') }) kc
+      have husers' : ∀ x, aget s'.users x = if lower n' = x then some { u with nick := n' }
+          else if lower n = x then none else aget s.users x := by
+        intro x; subst hs'; show aget (aset (adel s.users (lower n)) (lower n') _) x = _
+        rw [aget_aset, aget_adel]
+      have hbk' : s'.botKey = if lower n = s.botKey then lower n' else s.botKey := by
+        subst hs'
+        show lower (if lower n = s.botKey then n' else s.bot) = _
+        by_cases h : lower n = s.botKey
+        · rw [if_pos h, if_pos h]
+        · rw [if_neg h, if_neg h]; rfl
+      have hcfg' : s'.cfg = s.cfg := by subst hs'; rfl
+      have hms' : s'.modesSynced = s.modesSynced := by subst hs'; rfl
+      have hbs' : s'.bansSynced = s.bansSynced := by subst hs'; rfl
+      have htold' : s'.told = if (decide (lower n = s.botKey) || s.visible (lower n)) = true
+          then sadd (sdel s.told (lower n)) (lower n') else sdel (sdel s.told (lower n)) (lower n') := by subst hs'; rfl
+      have hnd' : (akeys s'.chans).Nodup := by
+        subst hs'
+        show (akeys (s.chans.map (fun p => (p.1, { p.2 with members := renameKey p.2.members (lower n) (lower n') })))).Nodup
+        rw [akeys_mapVal s.chans (fun p => { p.2 with members := renameKey p.2.members (lower n) (lower n') })]
+        exact hw.chansNodup
+      -- the bot is on the renamed channel iff it was on the old one
+      have hbotin : ∀ kc sc, aget s.chans kc = some sc →
+          (({ sc with members := renameKey sc.members (lower n) (lower n') } : SChan).has s'.botKey = true ↔ sc.has s.botKey = true) := by
+        intro kc sc hsc
+        rw [hbk', has_rename]
+        by_cases hown : lower n = s.botKey
+        · simp only [hown, ↓reduceIte, true_and]
+          constructor
+          · rintro (h | ⟨hx, h⟩)
+            · exact h
+            · have hfr := hfree (by rw [hown]; exact hx)
+              rw [not_has_of_free hw hsc hfr] at h; cases h
+          · intro h; exact Or.inl h
+        · simp only [hown, ↓reduceIte]
+          constructor
+          · rintro (⟨_, _⟩ | ⟨_, h⟩)
+            · rename_i e _
+              by_cases hsame : lower n' = lower n
+              · exact absurd (e.trans hsame).symm hown
+              · have hfr := hfree hsame
+                rw [← e, hub'] at hfr; cases hfr
+            · exact h
+          · intro h; exact Or.inr ⟨fun e => hown e.symm, h⟩
+      -- membership of other nicks is unchanged
+      have hother : ∀ (sc : SChan) x, x ≠ lower n → x ≠ lower n' →
+          (({ sc with members := renameKey sc.members (lower n) (lower n') } : SChan).has x = true ↔ sc.has x = true) := by
+        intro sc x h1 h2
+        rw [has_rename]; simp [h1, h2]
+      have hnewkey : ∀ kc sc, aget s.chans kc = some sc →
+          (({ sc with members := renameKey sc.members (lower n) (lower n') } : SChan).has (lower n') = true ↔ sc.has (lower n) = true) := by
+        intro kc sc hsc
+        rw [has_rename]
+        constructor
+        · rintro (⟨_, h⟩ | ⟨hx, h⟩)
+          · exact h
+          · rw [not_has_of_free hw hsc (hfree hx)] at h; cases h
+        · intro h; exact Or.inl ⟨rfl, h⟩
+      -- visibility in the new state comes from visibility in the old one
+      have hvis_other : ∀ x, x ≠ lower n → x ≠ lower n' → s'.visible x = true → s.visible x = true := by
+        intro x h1 h2 hv
+        obtain ⟨kc, sc', hsc', hb1, hb2⟩ := (visible_iff hnd').mp hv
+        rw [hchans'] at hsc'
+        cases hsc : aget s.chans kc with
+        | none => rw [hsc] at hsc'; cases hsc'
+        | some sc =>
+          rw [hsc] at hsc'; simp only [Option.map_some, Option.some.injEq] at hsc'; subst hsc'
+          exact (visible_iff hw.chansNodup).mpr ⟨kc, sc, hsc, (hbotin kc sc hsc).mp hb1, (hother sc x h1 h2).mp hb2⟩
+      have hvis_new : s'.visible (lower n') = true → s.visible (lower n) = true := by
+        intro hv
+        obtain ⟨kc, sc', hsc', hb1, hb2⟩ := (visible_iff hnd').mp hv
+        rw [hchans'] at hsc'
+        cases hsc : aget s.chans kc with
+        | none => rw [hsc] at hsc'; cases hsc'
+        | some sc =>
+          rw [hsc] at hsc'; simp only [Option.map_some, Option.some.injEq] at hsc'; subst hsc'
+          exact (visible_iff hw.chansNodup).mpr ⟨kc, sc, hsc, (hbotin kc sc hsc).mp hb1, (hnewkey kc sc hsc).mp hb2⟩
+      have hpe' : s'.pending = s.pending := by subst hs'; rfl
+      have hback : ∀ kc sc', aget s'.chans kc = some sc' → ∃ sc, aget s.chans kc = some sc ∧
+          sc' = { sc with members := renameKey sc.members (lower n) (lower n') } := by
+        intro kc sc' hsc'
+        rw [hchans'] at hsc'
+        cases hsc : aget s.chans kc with
+        | none => rw [hsc] at hsc'; cases hsc'
+        | some sc =>
+          rw [hsc] at hsc'; simp only [Option.map_some, Option.some.injEq] at hsc'
+          exact ⟨sc, rfl, hsc'.symm⟩
+      show CompleteP s' s'.pending
+      rw [hpe']
+      refine ⟨?_, ?_, ?_⟩
+      · intro k sc' hsc' hb
+        obtain ⟨sc, hsc, rfl⟩ := hback k sc' hsc'
+        rw [hms']; exact hc0.modes k sc hsc ((hbotin k sc hsc).mp hb)
+      · intro k sc' hsc' hb
+        obtain ⟨sc, hsc, rfl⟩ := hback k sc' hsc'
+        rw [hbs']; exact hc0.bans k sc hsc ((hbotin k sc hsc).mp hb)
+      · intro hcg x hv
+        rw [hcfg'] at hcg
+        by_cases h2 : x = lower n'
+        · subst h2
+          have hv0 := hvis_new hv
+          left
+          rw [htold', if_pos (by simp [hv0])]
+          exact mem_sadd.mpr (Or.inl rfl)
+        · by_cases h1 : x = lower n
+          · subst h1
+            exfalso
+            obtain ⟨kc, sc', hsc', _, hx⟩ := (visible_iff hnd').mp hv
+            obtain ⟨sc, _, rfl⟩ := hback kc sc' hsc'
+            rw [has_rename] at hx
+            rcases hx with ⟨e, _⟩ | ⟨e, _⟩
+            · exact h2 e
+            · exact e rfl
+          · have hv0 := hvis_other x h1 h2 hv
+            rcases hc0.hosts hcg x hv0 with ht | hall
+            · left
+              rw [htold']
+              split
+              · exact mem_sadd.mpr (Or.inr (mem_sdel.mpr ⟨h1, ht⟩))
+              · exact mem_sdel.mpr ⟨h2, mem_sdel.mpr ⟨h1, ht⟩⟩
+            · right
+              intro kc sc' hsc' hb hx
+              obtain ⟨sc, hsc, rfl⟩ := hback kc sc' hsc'
+              exact hall kc sc hsc ((hbotin kc sc hsc).mp hb) ((hother sc x h1 h2).mp hx)
+
+/-! ### reconnect: the bot is on no channel -/
+
+theorem completeP_of_nowhere {s : Srv} (hn : (akeys s.chans).Nodup) (P : List Req)
+    (h : ∀ k sc, aget s.chans k = some sc → sc.has s.botKey = false) : CompleteP s P := by
+  refine ⟨?_, ?_, ?_⟩
+  · intro k sc h1 h2; rw [h k sc h1] at h2; cases h2
+  · intro k sc h1 h2; rw [h k sc h1] at h2; cases h2
+  · intro _ x hv
+    obtain ⟨kc, sc, h1, h2, _⟩ := (visible_iff hn).mp hv
+    rw [h kc sc h1] at h2; cases h2
+
+theorem complete_reconnect {s : Srv} (hw : SrvWF s) (hc : Complete s) : Complete (s.step .reconnect).1 := by
+  have hw' := wf_reconnect hw
+  revert hw'
+  simp only [Srv.step]
+  split
+  · intro _; exact hc
+  · rename_i u hu
+    split
+    · intro _; exact hc
+    · rename_i hcond
+      simp only [Bool.and_eq_true, bne_iff_ne, ne_eq, not_and, Bool.not_eq_true, Option.isSome_eq_false_iff,
+        Option.isNone_iff_eq_none] at hcond
+      rw [Srv.user_eq] at hcond
+      intro hw'
+      refine completeP_of_nowhere hw'.chansNodup _ ?_
+      intro kc sc' hsc'
+      have hsc'' : aget (s.dropEverywhere s.botKey).chans kc = some sc' := hsc'
+      obtain ⟨sc, hsc, rfl⟩ := dropEverywhere_chan hw.chansNodup hsc''
+      show (sc.remove s.botKey).has (lower s.cfg.botNick) = false
+      by_cases hsame : lower s.cfg.botNick = s.botKey
+      · rw [hsame]; exact has_remove_self sc s.botKey
+      · rw [← Bool.not_eq_true]; intro hcon
+        have a := has_remove_of hcon
+        rw [not_has_of_free hw hsc (hcond hsame)] at a; cases a
+
+theorem complete_init (cfg : Cfg) : Complete (Srv.init cfg) :=
+  completeP_of_nowhere (by simp [Srv.init, akeys]) _ (fun k sc h => by simp [Srv.init, aget] at h)
+
+/-! ### JOIN of somebody else -/
+
+theorem has_append_new {sc : SChan} {k x : Str} {f : Flags} :
+    ({ sc with members := sc.members ++ [(k, f)] } : SChan).has x = true ↔ sc.has x = true ∨ x = k := by
+  simp only [has_iff, List.mem_append, List.mem_singleton, Prod.mk.injEq]
+  constructor
+  · rintro ⟨g, h | ⟨h, _⟩⟩
+    · exact Or.inl ⟨g, h⟩
+    · exact Or.inr h
+  · rintro (⟨g, h⟩ | h)
+    · exact ⟨g, Or.inl h⟩
+    · exact ⟨f, Or.inr ⟨h, rfl⟩⟩
+
+theorem joinOthers_frame (k : Str) (cs : List Str) : ∀ s : Srv, k ≠ s.botKey →
+    (s.joinOthers k cs).1.cfg = s.cfg ∧ (s.joinOthers k cs).1.bot = s.bot ∧
+    (s.joinOthers k cs).1.modesSynced = s.modesSynced ∧ (s.joinOthers k cs).1.bansSynced = s.bansSynced ∧
+    (s.joinOthers k cs).1.pending = s.pending ∧ (s.joinOthers k cs).1.told = s.told ∧
+    ∀ kc sc', aget (s.joinOthers k cs).1.chans kc = some sc' → sc'.has s.botKey = true →
+      ∃ sc, aget s.chans kc = some sc ∧ sc.has s.botKey = true ∧
+        ∀ x, sc'.has x = true → sc.has x = true ∨ (x = k ∧ (s.joinOthers k cs).2 ≠ []) := by
+  induction cs with
+  | nil => intro s _; exact ⟨rfl, rfl, rfl, rfl, rfl, rfl, fun kc sc' h hb => ⟨sc', h, hb, fun _ hx => Or.inl hx⟩⟩
+  | cons c cs ih =>
+    intro s hkb
+    unfold Srv.joinOthers
+    cases he : s.enter k c with
+    | none => simp only []; exact ih s hkb
+    | some r =>
+      obtain ⟨s1, name⟩ := r
+      simp only []
+      obtain ⟨_, sc1, hs1, _, hcase⟩ := enter_spec he
+      have hkb1 : k ≠ s1.botKey := by rw [hs1]; exact hkb
+      obtain ⟨a1, a2, a3, a4, a5, a6, a7⟩ := ih s1 hkb1
+      have e1 : s1.cfg = s.cfg := by rw [hs1]
+      have e2 : s1.bot = s.bot := by rw [hs1]
+      have e3 : s1.modesSynced = s.modesSynced := by rw [hs1]
+      have e4 : s1.bansSynced = s.bansSynced := by rw [hs1]
+      have e5 : s1.pending = s.pending := by rw [hs1]
+      have e6 : s1.told = s.told := by rw [hs1]
+      have ebk : s1.botKey = s.botKey := by rw [hs1]; rfl
+      refine ⟨a1.trans e1, a2.trans e2, a3.trans e3, a4.trans e4, a5.trans e5, a6.trans e6, ?_⟩
+      intro kc sc' hsc' hb
+      rw [← ebk] at hb
+      obtain ⟨scm, hscm, hbm, hmem⟩ := a7 kc sc' hsc' hb
+      rw [ebk] at hbm
+      have hscm' : aget (aset s.chans (lower c) sc1) kc = some scm := by rw [hs1] at hscm; exact hscm
+      rw [aget_aset] at hscm'
+      by_cases hk : lower c = kc
+      · subst hk
+        simp only [↓reduceIte, Option.some.injEq] at hscm'
+        subst hscm'
+        rcases hcase with ⟨_, _, hnew⟩ | ⟨sc, hsc, _, hext⟩
+        · exfalso
+          rw [hnew, has_iff] at hbm
+          obtain ⟨f, hf⟩ := hbm
+          simp only [List.mem_singleton, Prod.mk.injEq] at hf
+          exact hkb hf.1.symm
+        · have hb0 : sc.has s.botKey = true := by
+            rw [hext, has_append_new] at hbm
+            rcases hbm with h | h
+            · exact h
+            · exact absurd h.symm hkb
+          have hany : (s.chan c).any s.botIn = true := by
+            rw [Srv.chan_eq, hsc]; exact hb0
+          refine ⟨sc, hsc, hb0, ?_⟩
+          intro x hx
+          rcases hmem x hx with h | ⟨h, _⟩
+          · rw [hext, has_append_new] at h
+            rcases h with h | h
+            · exact Or.inl h
+            · exact Or.inr ⟨h, by rw [hany]; simp⟩
+          · exact Or.inr ⟨h, by rw [hany]; simp⟩
+      · simp only [hk, ↓reduceIte] at hscm'
+        refine ⟨scm, hscm', hbm, ?_⟩
+        intro x hx
+        rcases hmem x hx with h | ⟨h, hne⟩
+        · exact Or.inl h
+        · refine Or.inr ⟨h, ?_⟩
+          split
+          · simp
+          · exact hne
+
+theorem complete_join_others {s : Srv} (hw : SrvWF s) (hc : Complete s) (n : Str) (cs : List Str)
+    (hnb : lower n ≠ s.botKey) : Complete (s.step (.join n cs)).1 := by
+  have hw' := wf_join hw n cs
+  apply complete_of_frame hc hw.chansNodup hw'.chansNodup
+  simp only [Srv.step]
+  split
+  · exact cframe_shrink rfl rfl (Shrinks.refl _) rfl rfl rfl (fun _ h _ => h)
+  · rw [if_neg hnb]
+    obtain ⟨a1, a2, a3, a4, a5, a6, a7⟩ := joinOthers_frame (lower n) cs s hnb
+    split
+    · rename_i hemp
+      refine ⟨⟨a1, a2, ?_, fun _ h => by rw [a3]; exact h, fun _ h => by rw [a4]; exact h,
+        fun _ x hx _ => by rw [a6]; exact hx⟩, fun _ h => by rw [a5]; exact h⟩
+      intro kc sc' hsc' hb
+      obtain ⟨sc, hsc, hb0, hmem⟩ := a7 kc sc' hsc' hb
+      refine ⟨sc, hsc, hb0, fun x hx => ?_⟩
+      rcases hmem x hx with h | ⟨_, hne⟩
+      · exact Or.inl h
+      · exfalso; apply hne
+        cases hl : (s.joinOthers (lower n) cs).2 with
+        | nil => rfl
+        | cons _ _ => rw [hl] at hemp; cases hemp
+    · refine ⟨⟨a1, a2, ?_, fun _ h => by show _ ∈ (s.joinOthers (lower n) cs).1.modesSynced; rw [a3]; exact h,
+        fun _ h => by show _ ∈ (s.joinOthers (lower n) cs).1.bansSynced; rw [a4]; exact h,
+        fun _ x hx _ => mem_sadd.mpr (Or.inr (by rw [a6]; exact hx))⟩,
+        fun _ h => by show _ ∈ (s.joinOthers (lower n) cs).1.pending; rw [a5]; exact h⟩
+      intro kc sc' hsc' hb
+      obtain ⟨sc, hsc, hb0, hmem⟩ := a7 kc sc' hsc' hb
+      refine ⟨sc, hsc, hb0, fun x hx => ?_⟩
+      rcases hmem x hx with h | ⟨h, _⟩
+      · exact Or.inl h
+      · exact Or.inr (mem_sadd.mpr (Or.inl h))
+
+/-! ### the bot's own JOIN: it asks, the server queues -/
+
+theorem outAll_append (xs ys : List Ev) : ∀ b : Bot, b.outAll (xs ++ ys) = b.outAll xs ++ (b.recvAll xs).outAll ys := by
+  induction xs with
+  | nil => intro b; rfl
+  | cons e xs ih =>
+    intro b
+    cases e with
+    | msg m =>
+      show b.out m ++ (b.recv (.msg m)).outAll (xs ++ ys) = (b.out m ++ (b.recv (.msg m)).outAll xs) ++ _
+      rw [ih, List.append_assoc]; rfl
+    | reset =>
+      show b.reset.outAll (xs ++ ys) = b.reset.outAll xs ++ _
+      rw [ih]; rfl
+
+/-- what the bot sends on seeing its own JOIN, as the server reads it -/
+theorem out_own_join {s : Srv} {b : Bot} (hw : SrvWF s) (hc : Coupled s b) {ub : SUser}
+    (hub : aget s.users s.botKey = some ub) (name : Str) (hcomma : ',' ∉ name) :
+    (b.out ⟨ub.mask, "JOIN".toList, joinArgs s.cfg name⟩).filterMap reqOf = [Req.mode name, Req.bans name, Req.who name] := by
+  have huo := hw.uok hub
+  have hbn : NickOK b.nick := by rw [hc.nick]; exact hw.botNickOK
+  have hne : ub.mask ≠ b.nick := mask_ne_nick hbn
+  have hown : ub.nick = b.nick := by rw [hc.nick]; exact hw.bot_user hub
+  obtain ⟨rest, hargs⟩ := joinArgs_cons s.cfg name
+  have htag : b.tagRaises ⟨ub.mask, "JOIN".toList, name :: rest⟩ = false := tagOK_of_ok hc.isup _
+  have hns : "JOIN".toList ∉ Gen.nickSetters := setters_out_ok _ (by decide)
+  unfold Bot.out
+  simp only [htag, Bool.false_eq_true, ↓reduceIte, hne, hns, cmdOf_JOIN, hargs, msg_nick_user huo, hown]
+  simp only [joinRequests, splitChar_single hcomma, List.map_cons, List.map_nil, List.cons_append, List.nil_append]
+  have h1 : ("MODE".toList = "WHO".toList) = False := by decide
+  simp [reqOf, h1]
+
+theorem joinBot_pending (u : SUser) (cs : List Str) : ∀ s : Srv, (s.joinBot u cs).1.pending = s.pending := by
+  induction cs with
+  | nil => intro s; rfl
+  | cons c cs ih =>
+    intro s
+    unfold Srv.joinBot
+    cases he : s.enter s.botKey c with
+    | none => simp only []; exact ih s
+    | some r =>
+      obtain ⟨s1, name⟩ := r
+      simp only []
+      obtain ⟨_, sc1, hs1, _, _⟩ := enter_spec he
+      have e5 : s1.pending = s.pending := by rw [hs1]
+      split
+      · rw [ih]; exact e5
+      · simp only []; rw [ih]; exact e5
+
+theorem complete_enter_aux {s s2 : Srv} {P P' : List Req} (hw : SrvWF s) (hc : CompleteP s P) {c name : Str} {sc1 : SChan}
+    (hkey : lower name = lower c) (hch2 : s2.chans = aset s.chans (lower c) sc1) (hbot2 : s2.bot = s.bot)
+    (hcfg2 : s2.cfg = s.cfg) (hms2 : s2.modesSynced = sdel s.modesSynced (lower c))
+    (hbs2 : s2.bansSynced = sdel s.bansSynced (lower c)) (htold2 : ∀ x, x ∈ s.told → x ∈ s2.told)
+    (hnd2 : (akeys s2.chans).Nodup)
+    (hP : ∀ r, r ∈ P → r ∈ P') (h1 : Req.mode name ∈ P') (h2 : Req.bans name ∈ P') (h3 : Req.who name ∈ P') :
+    CompleteP s2 P' := by
+  have hbk2 : s2.botKey = s.botKey := by simp [Srv.botKey, hbot2]
+  have hget : ∀ k, lower c ≠ k → aget s2.chans k = aget s.chans k := by
+    intro k hk; rw [hch2, aget_aset_ne _ _ hk]
+  refine ⟨?_, ?_, ?_⟩
+  · intro k sc' hsc' hb
+    by_cases hk : lower c = k
+    · exact Or.inr ⟨name, hkey.trans hk, h1⟩
+    · rw [hget k hk] at hsc'
+      rw [hbk2] at hb
+      rcases hc.modes k sc' hsc' hb with h | h
+      · left; rw [hms2]; exact mem_sdel.mpr ⟨fun e => hk e.symm, h⟩
+      · exact Or.inr (h.mono hP)
+  · intro k sc' hsc' hb
+    by_cases hk : lower c = k
+    · exact Or.inr ⟨name, hkey.trans hk, h2⟩
+    · rw [hget k hk] at hsc'
+      rw [hbk2] at hb
+      rcases hc.bans k sc' hsc' hb with h | h
+      · left; rw [hbs2]; exact mem_sdel.mpr ⟨fun e => hk e.symm, h⟩
+      · exact Or.inr (h.mono hP)
+  · intro hcg x hv
+    rw [hcfg2] at hcg
+    by_cases hxt : x ∈ s2.told
+    · exact Or.inl hxt
+    · right
+      intro kc sc' hsc' hb hx
+      by_cases hk : lower c = kc
+      · exact ⟨name, hkey.trans hk, h3⟩
+      · rw [hget kc hk] at hsc'
+        rw [hbk2] at hb
+        have hv0 : s.visible x = true := (visible_iff hw.chansNodup).mpr ⟨kc, sc', hsc', hb, hx⟩
+        rcases hc.hosts hcg x hv0 with h | h
+        · exact absurd (htold2 x h) hxt
+        · exact (h kc sc' hsc' hb hx).mono hP
+
+/-- the bot enters one channel: whatever is told at once is told; the rest is covered by the three queries -/
+theorem complete_enter {s s1 : Srv} {P P' : List Req} (hw : SrvWF s) {ub : SUser} (hub : aget s.users s.botKey = some ub)
+    (hc : CompleteP s P) {c name : Str} (he : s.enter s.botKey c = some (s1, name)) {sc1 : SChan}
+    (hsc1 : s1.chan c = some sc1) (hP : ∀ r, r ∈ P → r ∈ P') (h1 : Req.mode name ∈ P') (h2 : Req.bans name ∈ P')
+    (h3 : Req.who name ∈ P') :
+    CompleteP { s1 with modesSynced := sdel s1.modesSynced (lower c), bansSynced := sdel s1.bansSynced (lower c),
+                        told := if s1.cfg.uhnames then addAll (sadd s1.told s1.botKey) sc1.keys else sadd s1.told s1.botKey } P' := by
+  have hw1 : SrvWF s1 := enter_wf hw (by simp [hub]) he
+  obtain ⟨_, sc1', hs1, hname, _⟩ := enter_spec he
+  subst hs1
+  have hsc1' : aget (aset s.chans (lower c) sc1') (lower c) = some sc1 := hsc1
+  rw [aget_aset_self] at hsc1'
+  cases hsc1'
+  have hcw1 := hw1.chans (lower c) sc1 (aget_aset_self _ _ _)
+  have hkey : lower name = lower c := by rw [← hname]; exact hcw1.key
+  refine complete_enter_aux hw hc hkey rfl rfl rfl rfl rfl ?_ hw1.chansNodup hP h1 h2 h3
+  intro x hx
+  show x ∈ (if s.cfg.uhnames then addAll (sadd s.told s.botKey) sc1.keys else sadd s.told s.botKey)
+  split
+  · exact mem_addAll.mpr (Or.inl (mem_sadd.mpr (Or.inr hx)))
+  · exact mem_sadd.mpr (Or.inr hx)
+
+theorem outAll_emit_cons (b : Bot) (p : Str) (c : String) (a : List Str) (xs : List Ev) :
+    b.outAll (emit p c a :: xs) = b.out ⟨p, c.toList, a⟩ ++ (b.recv (emit p c a)).outAll xs := rfl
+
+theorem joinBot_complete (ub : SUser) (cs : List Str) :
+    ∀ (s : Srv) (b : Bot) (P : List Req), SrvWF s → Coupled s b → aget s.users s.botKey = some ub → CompleteP s P →
+      CompleteP (s.joinBot ub cs).1 (P ++ (b.outAll (s.joinBot ub cs).2).filterMap reqOf) := by
+  induction cs with
+  | nil => intro s b P _ _ _ hc; exact hc.mono (fun r hr => List.mem_append_left _ hr)
+  | cons c cs ih =>
+    intro s b P hw hcpl hub hc
+    unfold Srv.joinBot
+    cases he : s.enter s.botKey c with
+    | none => simp only []; exact ih s b P hw hcpl hub hc
+    | some r =>
+      obtain ⟨s1, name⟩ := r
+      simp only []
+      have hw1 : SrvWF s1 := enter_wf hw (by simp [hub]) he
+      have hus := enter_users he
+      obtain ⟨_, sc1, hs1, hname, _⟩ := enter_spec he
+      have hsc1 : s1.chan c = some sc1 := by
+        rw [hs1]; show aget (aset s.chans (lower c) sc1) (lower c) = _; exact aget_aset_self _ _ _
+      rw [hsc1]
+      simp only []
+      have hone := own_join_one hw hcpl hub he hsc1
+      have hcw1 := hw1.chans (lower c) sc1 (by rw [hs1]; exact aget_aset_self _ _ _)
+      have hcomma : ',' ∉ name := by rw [← hname]; exact chan_noComma_of_valid hcw1.name
+      have hq := out_own_join hw hcpl hub name hcomma
+      have hub2 : aget s1.users s1.botKey = some ub := by
+        simp only [Srv.botKey, hus.1, hus.2.1]; exact hub
+      rw [outAll_append, outAll_emit_cons]
+      simp only [List.filterMap_append, hq]
+      generalize List.filterMap reqOf ((b.recv (emit ub.mask "JOIN" (joinArgs s.cfg name))).outAll (s1.joinBurst sc1)) = Q2
+      have hen := complete_enter (P' := P ++ ([Req.mode name, Req.bans name, Req.who name] ++ Q2)) hw hub hc he hsc1
+        (fun r hr => List.mem_append_left _ hr) (by simp) (by simp) (by simp)
+      have hrec := (fun hw2 => ih _ _ _ hw2 hone hub2 hen) (wf_congr hw1 rfl rfl rfl rfl)
+      refine hrec.mono ?_
+      intro r hr
+      simpa [List.append_assoc] using hr
+
+theorem complete_join {s : Srv} {b : Bot} (hw : SrvWF s) (hcpl : Coupled s b) (hc : Complete s) (n : Str) (cs : List Str) :
+    Complete ((s.step (.join n cs)).1.enqueue (b.outAll (s.step (.join n cs)).2)) := by
+  by_cases hnb : lower n = s.botKey
+  · simp only [Srv.step]
+    split
+    · exact complete_enqueue hc _
+    · rename_i u hu
+      rw [Srv.user_eq, hnb] at hu
+      rw [if_pos hnb]
+      have h := joinBot_complete u cs s b s.pending hw hcpl hu hc
+      show CompleteP _ ((s.joinBot u cs).1.pending ++ _)
+      rw [joinBot_pending]
+      exact ⟨h.modes, h.bans, h.hosts⟩
+  · exact complete_enqueue (complete_join_others hw hc n cs hnb) _
+
+/-- the invariant is kept by every action together with the bot's reaction to it -/
+theorem complete_step {s : Srv} {b : Bot} (hw : SrvWF s) (hcpl : Coupled s b) (hc : Complete s) (a : Act) (ha : a.ok) :
+    Complete ((s.step a).1.enqueue (b.outAll (s.step a).2)) := by
+  cases a with
+  | join n cs => exact complete_join hw hcpl hc n cs
+  | connect n i h => exact complete_enqueue (complete_connect hw hc n i h) _
+  | part n cs r => exact complete_enqueue (complete_part hw hc n cs r) _
+  | kick src c ts r => exact complete_enqueue (complete_kick hw hc src c ts r) _
+  | quit n r => exact complete_enqueue (complete_quit hw hc n r) _
+  | nick n n' => exact complete_enqueue (complete_nick hw hc n n') _
+  | mode src c cs => exact complete_enqueue (complete_mode hw hc src c cs ha) _
+  | topic src c t => exact complete_enqueue (complete_topic hw hc src c t) _
+  | chghost n i h => exact complete_enqueue (complete_chghost hw hc n i h) _
+  | say n t x => exact complete_enqueue (complete_say hw hc n t x) _
+  | isupport => exact complete_enqueue (complete_isupport hc) _
+  | names c => exact complete_enqueue (complete_names hw hc c) _
+  | who c => exact complete_enqueue (complete_who hw hc c) _
+  | modeis c => exact complete_enqueue (complete_modeis hw hc c) _
+  | banlist c => exact complete_enqueue (complete_banlist hw hc c) _
+  | serve => exact complete_enqueue (complete_serve hw hc) _
+  | reconnect => exact complete_enqueue (complete_reconnect hw hc) _
+
+theorem run_complete (acts : List Act) : ∀ (s : Srv) (b : Bot), SrvWF s → Coupled s b → Complete s → (∀ a ∈ acts, a.ok) →
+    Complete (run s b acts).1 := by
+  induction acts with
+  | nil => intro s b _ _ hc _; exact hc
+  | cons a as ih =>
+    intro s b hw hcpl hc hok
+    unfold run
+    have h1 := wf_step hw a (hok a (by simp))
+    have h2 := coupled_step hw hcpl a (hok a (by simp))
+    exact ih _ _ (wf_enqueue h1 _) (coupled_pending h2 _) (complete_step hw hcpl hc a (hok a (by simp)))
+      (fun a' ha' => hok a' (by simp [ha']))
+
 end C10
